@@ -35,7 +35,7 @@ LEVEL = "exploration"
 KNOBS = {"p_firing_timeout": 0.12, "p_decisions": 0.45, "p_handler": 0.5, "p_abort": 0.45, "p_abort_if": 0.7, "p_budget": 0.35, "p_generous": 0.45, "p_ok": 0.18,
          "p_hostile": 0.12, "p_overshoot": 0.3, "p_att_hooks": 0.5, "p_single_call": 0.8}
 RULE = ("each seeded scenario is run through all 28 entry-point variants and the normalised traces are compared pairwise "
-        "against the sync Retry.call run; distinct by trace shape of the reference run; non-trivial = >=1 failed attempt")
+        "against the sync Retry.call run (incl. firing attempt timeouts, interrupted operations, raising strategy/sleeper); distinct by trace shape of the reference run; non-trivial = >=1 failed attempt")
 COMPONENTS = common.REAL_COMPONENTS
 ASSUMPTIONS = ["of the abnormal terminations only an interruption raised by the operation itself is generated (the rest is C08/C13's domain)",
                "normalisation is limited to the documented differences listed in the module docstring", "sampling, not proof"]
@@ -67,7 +67,7 @@ def gen(seed, tier="quick"):
         i = r.randrange(0, max(1, min(scn["cfg"]["max_attempts"], len(call["attempts"]))))
         call["attempts"][i] = {"kind": "nested_ree", "dur": call["attempts"][i].get("dur", 0)}
     scn["place"]["bs_async"] = r.random() < 0.5
-    scn["place"]["sleeper_kind"] = r.choice(["async", "sync"])
+    scn["place"]["sleeper_kind"] = r.choice(["async", "sync", "aw"])
     if r.random() < 0.1:
         # the operation is interrupted (part of "the same behaviour of the operation"): every entry point lets the
         # interruption through and has the same breaker / budget interactions up to and including that moment
